@@ -3,7 +3,7 @@
 BASIC = ["bool", "int", "int8", "int16", "int32", "int64", "uint", "uint8", "uint16", "uint32", "uint64", "uintptr",
          "float32", "float64", "string", "any"]
 BANK_PLAIN = ["Inner", "Deep", "EmbedVal", "EmbedPtr", "Shadow", "EmbedUnexported", "Named", "Twice", "DescTag", "MyString", "MyInt",
-              "MyFloat", "MyInts", "time.Time", "slog.Level"]
+              "MyFloat", "MyInts", "time.Time", "slog.Level", "MyInt8", "MyUint16", "MyUint", "MyInt64", "MyBool", "Levels", "Empty", "Markers"]
 BANK_KNOWN = {"ShadowByTag": "D14", "Ambiguous": "D14", "EmbedTagged": "D16", "EmbedNonStruct": "D16", "BadTag": "D15",
               "WithMarshalers": "D13", "big.Int": "D13"}
 BANK_REC = ["Rec", "RecA"]
@@ -81,7 +81,7 @@ def gen_type(rng, depth, used, allow_known=0.04, allow_rec=0.0, allow_bad=0.0):
             else:
                 jnames.append("-")
         if "%s" in tag:
-            jn = rng.choice(["a", "b", "c", "d", "e", "x_y", "k.1"])
+            jn = rng.choice(["a", "b", "c", "d", "e", "x_y", "k.1", "f n", "a-b", "q?", "p:q", "é"])
             while jn in jnames:
                 jn += "1"
             jnames.append(jn)
